@@ -3,12 +3,15 @@ package frontarea
 import (
 	"flag"
 	"fmt"
+	"math"
+	"reflect"
 	"strings"
 
 	"dawgsverif/internal/tr"
 
 	"github.com/specterops/dawgs/cypher/frontend"
 	"github.com/specterops/dawgs/cypher/models/cypher"
+	"github.com/specterops/dawgs/cypher/models/walk"
 	"github.com/specterops/dawgs/graph"
 	"github.com/specterops/dawgs/query"
 	queryNeo4j "github.com/specterops/dawgs/query/neo4j"
@@ -315,6 +318,183 @@ func Shapes(args []string) {
 			ev["reparse_ok"], ev["parsed"], ev["note"] = true, d, note
 		}()
 		w.Emit(ev)
+	}
+	w.Close()
+	fmt.Printf("{\"events\":%d}\n", w.N)
+}
+
+func literalKind(l *cypher.Literal) string {
+	if l == nil {
+		return "none"
+	}
+	if l.Null {
+		return "null"
+	}
+	switch l.Value.(type) {
+	case int, int8, int16, int32, int64, uint, uint8, uint16, uint32, uint64:
+		return "int"
+	case float32, float64:
+		return "float"
+	case bool:
+		return "bool"
+	case string:
+		return "string"
+	}
+	return fmt.Sprintf("%T", l.Value)
+}
+
+// unquote decodes a Cypher string literal in source form ('...' with backslash escapes).
+func unquote(raw string) (string, bool) {
+	if len(raw) < 2 || (raw[0] != '\'' && raw[0] != '"') || raw[len(raw)-1] != raw[0] {
+		return "", false
+	}
+	var sb strings.Builder
+	body := raw[1 : len(raw)-1]
+	for i := 0; i < len(body); i++ {
+		if body[i] != '\\' {
+			sb.WriteByte(body[i])
+			continue
+		}
+		if i+1 >= len(body) {
+			return "", false
+		}
+		i++
+		switch body[i] {
+		case 'n':
+			sb.WriteByte('\n')
+		case 't':
+			sb.WriteByte('\t')
+		case 'r':
+			sb.WriteByte('\r')
+		case 'b':
+			sb.WriteByte('\b')
+		case 'f':
+			sb.WriteByte('\f')
+		default:
+			sb.WriteByte(body[i])
+		}
+	}
+	return sb.String(), true
+}
+
+// findLiteral returns the right operand of the comparison whose left side is the property v.
+func findLiteral(q *cypher.RegularQuery) (*cypher.Literal, cypher.Expression) {
+	var lit *cypher.Literal
+	var other cypher.Expression
+	_ = walk.CypherStructural(q, walk.NewSimpleVisitor[cypher.SyntaxNode](func(node cypher.SyntaxNode, _ walk.VisitorHandler) {
+		if c, ok := node.(*cypher.Comparison); ok {
+			if pl, isLookup := c.Left.(*cypher.PropertyLookup); isLookup && pl.Symbol == "v" && len(c.Partials) == 1 {
+				switch r := c.Partials[0].Right.(type) {
+				case *cypher.Literal:
+					lit = r
+				case *cypher.UnaryAddOrSubtractExpression:
+					// -<literal>: the grammar reads a leading minus as an operator
+					operand := r.Right
+					if ae, isArith := operand.(*cypher.ArithmeticExpression); isArith && len(ae.Partials) == 0 {
+						operand = ae.Left
+					}
+					if inner, isLit := operand.(*cypher.Literal); isLit && r.Operator == cypher.OperatorSubtract {
+						switch v := inner.Value.(type) {
+						case int64:
+							lit = cypher.NewLiteral(-v, false)
+						case float64:
+							lit = cypher.NewLiteral(-v, false)
+						}
+					}
+					other = r
+				default:
+					other = r
+				}
+			}
+		}
+	}))
+	return lit, other
+}
+
+// Literals builds a comparison against every literal of a fixed catalogue with the model constructors, renders it with
+// the Neo4j query builder and with the plain emitter, parses the text and reads the literal back: same type, same value.
+func Literals(args []string) {
+	fs := flag.NewFlagSet("front literals", flag.ExitOnError)
+	outp := fs.String("out", "trace.ndjson", "")
+	fs.Parse(args)
+	type entry struct {
+		name string
+		lit  *cypher.Literal
+		want any
+	}
+	var cat []entry
+	for _, v := range []int64{0, 1, -1, 42, 1 << 31, 1<<53 + 1, math.MaxInt64, math.MinInt64 + 1, -1 << 40} {
+		cat = append(cat, entry{fmt.Sprintf("int:%d", v), query.Literal(v), v})
+	}
+	for _, v := range []float64{1.5, 2, 0.123456789, math.Pi, 16777217, 1234567.891, 0.30000000000000004, 1700000000.123, 5e-324, 1e21, 1e-7, -2.5, math.MaxFloat64, 123456789012345.678} {
+		cat = append(cat, entry{fmt.Sprintf("float:%v", v), query.Literal(v), v})
+	}
+	cat = append(cat, entry{"bool:true", query.Literal(true), true}, entry{"bool:false", query.Literal(false), false}, entry{"null", query.Literal(nil), nil})
+	for _, v := range []string{"plain", "it's", `back\slash`, `quote"d`, "new\nline", "tab\there", "unicode 世界 😀", "", "'", `\'`, `ends with backslash\`, "semi;colon -- dash /* c */"} {
+		cat = append(cat, entry{"string:" + v, cypher.NewStringLiteral(v), v})
+	}
+	w := tr.Create(*outp)
+	hid := 0
+	for _, e := range cat {
+		for _, path := range []string{"neo4j", "emitter"} {
+			ev := map[string]any{"e": "c10lit", "hid": hid, "literal": e.name, "path": path, "panic": false, "rendered": false, "reparse_ok": false, "expected_type": literalKind(e.lit),
+				"parsed_type": "none", "same_value": false, "text": "", "note": ""}
+			hid++
+			func() {
+				defer func() {
+					if r := recover(); r != nil {
+						ev["panic"], ev["note"] = true, fmt.Sprint(r)
+					}
+				}()
+				crit := query.And(cypher.NewComparison(query.NodeProperty("v"), cypher.OperatorEquals, cypher.Copy(e.lit)), query.Equals(query.NodeProperty("name"), "x"))
+				var text string
+				var err error
+				if path == "neo4j" {
+					qb := queryNeo4j.NewQueryBuilder(query.SinglePartQuery(query.Where(crit), query.Returning(query.Node())))
+					if err = qb.Prepare(); err == nil {
+						text, err = qb.Render()
+					}
+				} else {
+					base, berr := frontend.ParseCypher(frontend.NewContext(), "match (n) where n.z = 0 return n")
+					if berr != nil {
+						tr.Fatal("base query: %v", berr)
+					}
+					base.SingleQuery.SinglePartQuery.ReadingClauses[0].Match.Where.Expressions[0] = crit
+					if err = walk.Cypher(base, query.NewParameterRewriter()); err == nil {
+						text, err = emitText(base)
+					}
+				}
+				if err != nil {
+					ev["note"] = "render: " + err.Error()
+					return
+				}
+				ev["rendered"], ev["text"] = true, text
+				parsed, perr := frontend.ParseCypher(frontend.NewContext(), text)
+				if perr != nil {
+					ev["note"] = "parse: " + perr.Error()
+					return
+				}
+				ev["reparse_ok"] = true
+				got, other := findLiteral(parsed)
+				if got == nil {
+					ev["note"] = fmt.Sprintf("no literal read back (%T)", other)
+					return
+				}
+				ev["parsed_type"] = literalKind(got)
+				switch want := e.want.(type) {
+				case nil:
+					ev["same_value"] = got.Null
+				case string:
+					if raw, isString := got.Value.(string); isString {
+						dec, ok := unquote(raw)
+						ev["same_value"] = ok && dec == want
+					}
+				default:
+					ev["same_value"] = reflect.DeepEqual(got.Value, want)
+				}
+			}()
+			w.Emit(ev)
+		}
 	}
 	w.Close()
 	fmt.Printf("{\"events\":%d}\n", w.N)
